@@ -160,8 +160,7 @@ fn check_2d(s: u64, r: &mut Report, tag: &str) {
         }
         Err(p) => r.violation(format!("unit-circle-panic|{tag}|m={:#x},{:#x}|s={s:#x}", m.0, m.1), format!("UnitCircle from state {s:#x} (mantissas {m:x?}) panicked: {p}"), case()),
     }
-    let v = VectorsOnUnitDisk.sample(&mut Xorshift64(s));
-    let p: Point2 = PointsOnUnitDisk.sample(&mut Xorshift64(s));
+    let (v, p): (Vec2, Point2) = match caught(|| (VectorsOnUnitDisk.sample(&mut Xorshift64(s)), PointsOnUnitDisk.sample(&mut Xorshift64(s)))) { Ok(x) => x, Err(e) => { r.violation(format!("unit-disk-panic|{tag}|s={s:#x}"), format!("disk sampler from state {s:#x} panicked: {e}"), case()); return; } };
     let l2 = (v.x() as f64).powi(2) + (v.y() as f64).powi(2);
     if !(l2 <= 1.0 + 1e-6) || p.x() != v.x() || p.y() != v.y() {
         r.violation(format!("unit-disk|{tag}|s={s:#x}"), format!("VectorsOnUnitDisk from {s:#x} returned {v:?} (|v|^2={l2}), PointsOnUnitDisk {p:?}"), case());
@@ -180,8 +179,7 @@ fn check_3d(s: u64, r: &mut Report, tag: &str) {
         }
         Err(p) => r.violation(format!("unit-sphere-panic|{tag}|m={m:x?}|s={s:#x}"), format!("UnitSphere from state {s:#x} (mantissas {m:x?}) panicked: {p}"), case()),
     }
-    let v = VectorsInUnitBall.sample(&mut Xorshift64(s));
-    let p: Point3 = PointsInUnitBall.sample(&mut Xorshift64(s));
+    let (v, p): (Vec3, Point3) = match caught(|| (VectorsInUnitBall.sample(&mut Xorshift64(s)), PointsInUnitBall.sample(&mut Xorshift64(s)))) { Ok(x) => x, Err(e) => { r.violation(format!("unit-ball-panic|{tag}|s={s:#x}"), format!("ball sampler from state {s:#x} panicked: {e}"), case()); return; } };
     let l2 = (v.x() as f64).powi(2) + (v.y() as f64).powi(2) + (v.z() as f64).powi(2);
     if !(l2 <= 1.0 + 1e-6) || p.x() != v.x() || p.y() != v.y() || p.z() != v.z() {
         r.violation(format!("unit-ball|{tag}|s={s:#x}"), format!("VectorsInUnitBall from {s:#x} returned {v:?} (|v|^2={l2}), PointsInUnitBall {p:?}"), case());
@@ -190,6 +188,11 @@ fn check_3d(s: u64, r: &mut Report, tag: &str) {
 
 /// composite distributions draw components independently, in order
 fn check_composite(s: u64, r: &mut Report) {
+    // (a panicking sampler is a violation, not a harness crash)
+    let mut inner = Report::new();
+    match caught(std::panic::AssertUnwindSafe(|| check_composite_inner(s, &mut inner))) { Ok(()) => r.merge(inner), Err(e) => { r.eval(); r.violation(format!("composite-panic|s={s:#x}"), format!("a composite distribution panicked from state {s:#x}: {e}"), obj! {"kind" => "composite", "s" => format!("{s:#x}")}); } }
+}
+fn check_composite_inner(s: u64, r: &mut Report) {
     r.eval();
     let mut g = Xorshift64(s);
     let a = Uniform([-1.0f32, 2.0, 10.0]..[1.0, 3.0, 20.0]).sample(&mut g);
